@@ -28,6 +28,15 @@ class Boom(Exception):
 
 
 class Rec(object):
+    """Recording destination.  Instances compare equal to each other (like dataclass-style or
+    empty-list-subclass destinations do): registration must go by identity, not equality."""
+
+    def __eq__(self, other):
+        return isinstance(other, Rec)
+
+    def __hash__(self):
+        return 1
+
     def __init__(self, ctx, name, budget, can_fail=True):
         self.ctx = ctx
         self.name = name
